@@ -48,7 +48,16 @@ def check_case(case):
     txs = _txs(case)
     n = len(txs)
     root = M.merkle_root([W.txid(t) for t in txs])
-    vtx = [libx.mk_tx(t, mutable=(case.get('mutable_every', 0) and i % case['mutable_every'] == 0)) for i, t in enumerate(txs)]
+    vtx = []
+    for i, t in enumerate(txs):
+        if case.get('mutable_every', 0) and i % case['mutable_every'] == 0:
+            # a mutable transaction whose identifiers were READ before its last edit: the tree is built from what it is now
+            o = libx.mk_tx(dict(t, locktime=t['locktime'] ^ 1), True)
+            o.GetTxid(); o.GetHash(); hash(o); o.calc_weight()
+            o.nLockTime = t['locktime']
+            vtx.append(o)
+        else:
+            vtx.append(libx.mk_tx(t, False))
     b = libx.call('construct', CBlock, vtx=vtx)[1]
     if b.hashMerkleRoot != root:
         raise Violation('root/filled-in', 'n=%d: zero declared root was filled with %s, reference %s' % (n, b.hashMerkleRoot.hex(), root.hex()))
@@ -57,7 +66,9 @@ def check_case(case):
     b2 = libx.call('construct-right', CBlock, hashMerkleRoot=root, vtx=vtx)[1]
     if b2.hashMerkleRoot != root:
         raise Violation('root/right-declared', 'right declared root not kept')
-    for wrong in (bytes([root[0] ^ 1]) + root[1:], H.dsha(root), b'\x01' * 32):
+    related = [root[::-1], root[16:] + root[:16], W.txid(txs[0]), W.txid(txs[-1]), M.merkle_root([W.txid(t) for t in txs[:-1]] or [bytes(32)]),
+               M.merkle_root([W.wtxid(t) for t in txs]), M.witness_root([W.wtxid(t) for t in txs]), root[:31] + bytes([root[31] ^ 0x80]), b'\xff' * 32]
+    for wrong in [bytes([root[0] ^ 1]) + root[1:], H.dsha(root), b'\x01' * 32] + [r for r in related if r != root and r != bytes(32)]:
         r = libx.call('construct-wrong', CBlock, hashMerkleRoot=wrong, vtx=vtx, allowed=(ValidationError,))
         if r[0] == 'ok':
             raise Violation('root/wrong-accepted', 'n=%d: block constructed with a wrong declared merkle root' % n)
